@@ -387,6 +387,14 @@ table "keep" {
 		// a statement fails AND foreign keys are on: rollback, pragma restored
 		{name: "fk-on-and-statement-fails", setup: append(append([]string{}, fkSetup...), "INSERT INTO child VALUES (3, NULL)"),
 			desired: parent + "CREATE TABLE child (id INTEGER PRIMARY KEY, pid INTEGER NOT NULL, CONSTRAINT c_p FOREIGN KEY (pid) REFERENCES parent (id));\n" + o, fk: true, fkCheck: true, single: true, mustErr: true},
+		// round 5: an EARLIER change is the rebuild of a table that other rows reference (its plan carries its own
+		// PRAGMA foreign_keys = off/on -- a no-op inside the transaction the opener began with foreign keys already off,
+		// effective without one), a LATER change's statement fails: default -> nothing of the rebuild stays; none -> the
+		// whole rebuild stays (prefix), the referencing rows are intact; and the control where nothing fails
+		{name: "r5-rebuild-of-referenced-table-then-later-change-fails", setup: r5Setup(true),
+			desired: r5Desired + "CREATE UNIQUE INDEX t_a ON t (a);\n", fk: true, fkCheck: true, mustErr: true},
+		{name: "r5-rebuild-of-referenced-table-then-later-change-ok", setup: r5Setup(false),
+			desired: r5Desired + "CREATE UNIQUE INDEX t_a ON t (a);\n", fk: true, fkCheck: true},
 		// foreign keys off: nobody checks
 		{name: "fk-off-add-constraint-over-orphan", setup: fkSetup, desired: parent + childFk + o, fk: false, fkCheck: true, single: true},
 	}
@@ -754,4 +762,17 @@ func dryFlagCases(w *out.W, mu *sync.Mutex, id *int) []func() {
 	}
 	w.Rule += fmt.Sprintf(". Round 5: %d flag scenarios: --dry-run x {--baseline first / last / unknown version, with and without --allow-dirty, neither flag (dirty database), count 1 / beyond the pending files} x target {fresh (3 tx-modes), one file applied, all applied, partial revision}; then the same command without --dry-run and a plain apply", n)
 	return fns
+}
+
+// round 5: p is referenced by rows of c; p is rebuilt (v becomes NOT NULL); t gets a unique index (over duplicates or not)
+const r5Desired = "CREATE TABLE c (id INTEGER PRIMARY KEY, pid INTEGER REFERENCES p (id));\nCREATE TABLE p (id INTEGER PRIMARY KEY, v INTEGER NOT NULL);\nCREATE TABLE t (a INTEGER, b INTEGER);\n"
+
+func r5Setup(dups bool) []string {
+	s := []string{"CREATE TABLE p (id INTEGER PRIMARY KEY, v INTEGER)", "INSERT INTO p VALUES (1, 5)", "INSERT INTO p VALUES (2, 6)",
+		"CREATE TABLE c (id INTEGER PRIMARY KEY, pid INTEGER REFERENCES p (id))", "INSERT INTO c VALUES (1, 1)", "INSERT INTO c VALUES (2, 2)",
+		"CREATE TABLE t (a INTEGER, b INTEGER)", "INSERT INTO t VALUES (1, 1)"}
+	if dups {
+		return append(s, "INSERT INTO t VALUES (1, 2)")
+	}
+	return append(s, "INSERT INTO t VALUES (2, 2)")
 }
